@@ -401,6 +401,10 @@ def run_rest(ctx):
     _emit.rule_F_SKELETON_ALL(ctx)
     import lskel as _lskel
     _lskel.rule_L_SKELETON(ctx, which=('lexical',), floor=10)
+    # whether the budget slot is found depends on the budget-content predicate of the lexical table (seed c15-p: `'0'..'9'` loses the digit 9
+    # and a task is read as a sentence)
+    import tables as _tb15
+    _tb15.rule_T_PRED(ctx, _tb15.Tables(ctx))
     ctx.undecided = ["kind(parse(format(v))) = kind(v) for every value (runs into value-dependent parsing, see C01)"]
     ctx.assumptions = ["Vec::is_empty / matches! semantics of std"]
     ctx.trusted = ["rustc HIR/MIR", "mirfacts driver", "python rule layer"]
